@@ -232,6 +232,13 @@ func installHooks() {
 		if c.ExecLimit > 0 && c.Exec > c.ExecLimit && c.LimitBroken == 0 {
 			c.LimitBroken = c.Exec
 		}
+		// Last line of defence: a thread that runs far past the limit under test
+		// (or past any budget the simulator ever grants) is stopped by the
+		// simulator itself, so that a broken limit shows up as a violation and
+		// not as a worker that never returns.
+		if (c.ExecLimit > 0 && c.Exec > c.ExecLimit+20000) || c.Exec > 40_000_000 {
+			panic(simAbort{c.Exec, c.ExecLimit})
+		}
 		if c.T != nil {
 			s := c.T.Sched()
 			if c.TickPerExec != 0 {
@@ -242,6 +249,13 @@ func installHooks() {
 			c.ExecSeqTail[c.Exec&7] = seq
 		}
 	}
+}
+
+// simAbort is the panic value with which the simulator stops a runaway thread.
+type simAbort struct{ executed, limit uint64 }
+
+func (a simAbort) String() string {
+	return fmt.Sprintf("stopped by the simulator after %d instructions (limit under test: %d instructions)", a.executed, a.limit)
 }
 
 // memWatch cancels a thread whose process has grown past the memory budget
